@@ -143,6 +143,11 @@ def register(reg):
         c1 = it.call(f, ['{'], {'allow_pre_space': False})
         c2 = it.call(f, ['{'], {'allow_pre_space': False})
         d = it.call(f, ['{'], {'allow_pre_space': True})
+        t1, t2, t1b = it.call(f, ['t+'], {}), it.call(f, ['t-'], {}), it.call(f, ['t+'], {})
+        d1, d2 = it.call(f, ['d()'], {}), it.call(f, ['d<>'], {})
+        ctx.prove('get_standard_argument_parser: specifications that differ only after the first letter get their own instances',
+                  t1 is t1b and len({id(x) for x in (t1, t2, d1, d2)}) == 4 and t1.fields['arg_spec'] == 't+' and
+                  t2.fields['arg_spec'] == 't-' and d1.fields['arg_spec'] == 'd()' and d2.fields['arg_spec'] == 'd<>', 'post')
         ctx.prove('get_standard_argument_parser: the same specification yields the same instance', a is a2 and c1 is c2, 'post')
         ctx.prove('get_standard_argument_parser: different specifications or options never share an instance',
                   len({id(x) for x in (a, b, c1, d)}) == 4, 'post')
